@@ -184,6 +184,23 @@ def run(ctx):
             events.append({"kind": "peak", "idx": idx if idx < (N + 1) // 2 else idx - N, "expected": kb})
             meta.append(("peak", kb))
         ctx.case(("laser", lw is None, kb > 0, N))
+    # the same offset and record length under two sampling rates, one after the other (the carrier must follow the current time axis)
+    for it, (cfgA, cfgB) in enumerate([(dict(sps=16, R=1e9), dict(sps=8, R=1e9)), (dict(sps=8, R=10e9), dict(sps=16, R=10e9))]):
+        N, dfv = 1024, None
+        for cfgx in (cfgA, cfgB, cfgA):
+            with warnings.catch_warnings():
+                warnings.simplefilter("ignore")
+                gv(**cfgx)
+            if dfv is None:
+                dfv = 64 * gv.fs / N
+            t = np.arange(N) * gv.dt
+            with deadline(60):
+                o = LASER(t, 0.0, df=dfv)
+            sp = np.abs(np.fft.fft(o.signal))
+            idx = int(np.argmax(sp))
+            events.append({"kind": "peak", "idx": idx if idx < (N + 1) // 2 else idx - N, "expected": int(round(dfv * N / gv.fs))})
+            meta.append(("peak", "history"))
+        ctx.case(("laser-history", it))
     gv.clean()
     for idx, clause in ctx.validate("ModulatorsTrace", events, note="laws/bounds"):
         m = meta[idx - 1]
